@@ -26,7 +26,7 @@ Theorem C14_unhandled_is_failure : forall ev H R inv l sc g m, rthrow ev H R inv
 Proof. exact throw_unhandled. Qed.
 Print Assumptions C14_unhandled_is_failure.
 
-Theorem C14_handlers_in_force_while_guarded : forall c ev n H R inv nid e rc ls sc g m,
+Theorem C14_handlers_in_force_while_guarded : forall (c : rdata) ev n H R inv nid e rc ls sc g m,
   reval_body c ev n H R inv (ERec nid e rc ls) sc g m = ev ((ls, rc) :: H) R inv e sc g m.
 Proof. exact rec_scopes_handler. Qed.
 Print Assumptions C14_handlers_in_force_while_guarded.
